@@ -2,7 +2,7 @@
 another; the templates keep the copies identical where the code is identical)."""
 from vf.extract import FnC, Sel, Mod, Clause
 
-PRELUDE_BLOCK = ['00_base.rs', '10_inout.rs', '20_cipher.rs', '50_fmt_zeroize.rs']
+PRELUDE_BLOCK = ['00_base.rs', '05_ranges.rs', '10_inout.rs', '20_cipher.rs', '50_fmt_zeroize.rs']
 
 
 def xor_fn(props=('C02',), kani=('xor_helper',)):
@@ -105,3 +105,76 @@ def fmt_fn(props=('C17',)):
 def drop_fn(fields, props=('C17',)):
     return FnC(extra_spec='opens_invariants none no_unwind',
                ensures=[('wiped_' + f, props, 'final(self).%s.is_zero()' % f) for f in fields], props=props)
+
+
+def alg_name_members(toks, impl_item):
+    """spec member `alg_name()` of an AlgorithmName impl, read mechanically from write_alg_name's body"""
+    from vf.extract import fmt_pieces
+    fn = [m for m in impl_item.members if m.kind == 'fn' and m.name == 'write_alg_name'][0]
+    total = ' + '.join(_piece_expr(p) for p in fmt_pieces(toks, fn))
+    return '    open spec fn alg_name() -> Seq<char> { %s }' % total
+
+
+def std_block_mode_mod(crate, direction, file, step, *, iv_fields=('iv',), backend='Backend', cipher_field='cipher_backend',
+                       obj=None, uses=None, backend_fns=None, init_fns=None, state_fns=None, props_rec=None,
+                       extra_items=(), cipher_kind=None, drop_fields=None, state_trait_items=True, modname=None):
+    """The common shape of cbc / pcbc / ige / cfb / cfb8 {encrypt,decrypt}.rs:
+    struct X; hoisted Closure of *_with_backend; InnerIvInit / IvState; AlgorithmName / Debug / Drop;
+    struct Backend and its BlockMode{Enc,Dec}Backend impl."""
+    enc = direction == 'enc'
+    obj = obj or ('Encryptor' if enc else 'Decryptor')
+    wb = 'encrypt_with_backend' if enc else 'decrypt_with_backend'
+    mode_trait = 'BlockModeEncrypt' if enc else 'BlockModeDecrypt'
+    backend_trait = 'BlockModeEncBackend' if enc else 'BlockModeDecBackend'
+    cipher_kind = cipher_kind or direction     # which direction of the cipher the mode uses
+    cclosure = 'BlockCipherEncClosure' if cipher_kind == 'enc' else 'BlockCipherDecClosure'
+    cfn = 'enc_fn' if cipher_kind == 'enc' else 'dec_fn'
+    modname = modname or '%s_%s' % (crate.replace('-', '_'), 'encrypt' if enc else 'decrypt')
+    pl = ('C07',) + tuple(props_rec[:1])
+    items = [
+        Sel('struct ' + obj),
+        Sel('impl BlockSizeUser for ' + obj),
+        Sel('struct Closure', inside=wb),
+        Sel('impl BlockSizeUser for Closure', inside=wb),
+        Sel('impl %s for Closure' % cclosure, inside=wb,
+            members=closure_members(cipher_kind, step, iv_fields),
+            fns={'call': FnC(props=pl, inherits=True, note='plumbing: builds the backend from the &mut state and the cipher backend')}),
+        Sel('impl %s for %s' % (mode_trait, obj), members=mode_members('%s(self.cipher.%s())' % (step, cfn), iv_fields),
+            fns={wb: FnC(props=pl, inherits=True, note='plumbing: hands the state by &mut to the closure')}),
+        Sel('impl InnerUser for ' + obj),
+        Sel('impl IvSizeUser for ' + obj),
+        Sel('impl InnerIvInit for ' + obj, fns=init_fns),
+    ]
+    if state_fns:
+        items.append(Sel('impl IvState for ' + obj, fns=state_fns))
+    items += [
+        Sel('impl AlgorithmName for ' + obj, members=alg_name_members, fns={'write_alg_name': fmt_fn()}),
+        Sel('impl Debug for ' + obj, fns={'fmt': fmt_fn()}),
+        Sel('impl Drop for ' + obj, fns={'drop': drop_fn(list(drop_fields if drop_fields is not None else iv_fields))}),
+        Sel('struct ' + backend),
+        Sel('impl BlockSizeUser for ' + backend),
+        Sel('impl ParBlocksSizeUser for ' + backend),
+        Sel('impl %s for %s' % (backend_trait, backend),
+            members=backend_members('%s(self.%s.%s())' % (step, cipher_field, cfn), iv_fields),
+            fns=backend_fns),
+    ]
+    items += list(extra_items)
+    return Mod(modname, file, uses=uses or '', items=items)
+
+
+BACKEND_PROOF_1 = '''
+        proof {
+            run_one(old(self).step(), old(self).abs(), x0);
+            assert(self.abs() =~= old(self).step()(old(self).abs(), x0).0);
+        }
+'''
+
+
+def init_plain(props=('C09',), fields=('iv',)):
+    return {'inner_iv_init': FnC(ret='r', props=props, ensures=[
+        ('iv', props, ' && '.join('r.%s@ == iv@' % f for f in fields)),
+        ('cipher', ('C09', 'C14'), 'r.cipher == cipher')])}
+
+
+def state_plain(props=('C09',)):
+    return {'iv_state': FnC(ret='r', props=props, ensures=[('state', props, 'r@ == self.iv@')])}
